@@ -2554,6 +2554,9 @@ where
         }
 
         // Step 2: Sort by size descending for better packing.
+        // Same input order in every run, so equal sizes bin the same way.
+        #[cfg(feature = "verif")]
+        fv_sizes.sort_unstable_by(|a, b| a.0.cmp(&b.0));
         fv_sizes.sort_unstable_by_key(|b| std::cmp::Reverse(b.1));
 
         // Step 3: First-fit-decreasing bin packing.
